@@ -167,6 +167,33 @@ Fixpoint nil_last (o : list (option cand)) : bool :=
   | Some _ :: t => nil_last t
   end.
 
+(* ---------- the guard of c24_partial_atomic_flush: a flushCandidates call
+   that is not interleaved with the agent (all its blocks in a row) ---------- *)
+Definition flush_atomic (s : st) (j : nat) : option st :=
+  match nth_error (fl s) j with
+  | Some FStart =>
+      let cs := match pool s with Some l => l | None => [] end in
+      Some {| gstate := gstate s; pool := None; psize := 0; nilp := false;
+              out := out s ++ map Some cs ++ (if nilp s then [None] else []);
+              a_rest := a_rest s; a_ph := a_ph s; fl := set_nth j FDone (fl s) |}
+  | _ => None
+  end.
+
+Definition stepF (s : st) (t : nat) : option st :=
+  match t with
+  | O => agent_step s
+  | S j => flush_atomic s j
+  end.
+
+Fixpoint runF (s : st) (sch : list nat) : st :=
+  match sch with
+  | [] => s
+  | t :: rest => match stepF s t with
+                 | Some s' => runF s' rest
+                 | None => runF s rest
+                 end
+  end.
+
 (* ------------------------------------------------------------------ *)
 (* Part B: flushCandidates before the repair                           *)
 (* ------------------------------------------------------------------ *)
